@@ -421,6 +421,10 @@ def main():
             for e in nobody:
                 inconclusive.append("%s: %s (harness does not link the callee)" % (hname, e["desc"]))
             gen = [e for e in gen if e not in nobody]
+            envb = [e for e in gen if e["status"] == "FAILURE" and e["desc"].startswith("ENVBOUND/")]
+            for e in envb:
+                inconclusive.append("%s: %s exceeded (environment model capacity, not a verdict)" % (hname, e["desc"]))
+            gen = [e for e in gen if e not in envb]
             failed = [e for e in obl + gen if e["status"] == "FAILURE"]
             undecided = [e for e in obl + gen if e["status"] not in ("SUCCESS", "FAILURE")]
             rec["failed"] = failed
